@@ -211,6 +211,8 @@ class ndarray:
     def __isub__(self, o): return self._inplace(self.__sub__(o))
     def __imul__(self, o): return self._inplace(self.__mul__(o))
     def __itruediv__(self, o): return self._inplace(self.__truediv__(o))
+    def __iand__(self, o): return self._inplace(self.__and__(o))
+    def __ior__(self, o): return self._inplace(self.__or__(o))
     def __lt__(self, o): return self._bin(o, lambda a, b: sbool(a < b))
     def __le__(self, o): return self._bin(o, lambda a, b: sbool(a <= b))
     def __gt__(self, o): return self._bin(o, lambda a, b: sbool(a > b))
@@ -451,6 +453,10 @@ def _frag_number(x):
 
 
 def f_cast(x, t):
+    if isinstance(t, StrDType):
+        if type(x) is str and core._TOK_L not in x:
+            return x[:t.width]
+        raise ShimGap('cast %r to a fixed-width string dtype' % (type(x),))
     name = getattr(t, '__name__', t)
     fn = _frag_number(x)
     if fn is not None:
@@ -526,6 +532,8 @@ def f_array(x, dtype=None):
             out = ndarray(x)
     if dtype is not None:
         out = out.astype(dtype)
+    elif out.dtype is None and out.ndim == 1:
+        out.dtype = _str_dtype(out.d)
     return out
 
 
@@ -911,6 +919,17 @@ def f_searchsorted(a, v, side='left'):
     return i
 
 
+def f_digitize(x, bins, right=False):
+    """numpy.digitize for increasing bins: right=False -> bins[i-1] <= x < bins[i] (= searchsorted side='right')."""
+    b = _flat(bins)
+    if builtins.any(is_sym(v) for v in b) is False and builtins.any(b[i] > b[i + 1] for i in range(len(b) - 1)):
+        raise ShimGap('digitize with decreasing bins')
+    one = lambda v: f_searchsorted(b, v, side='left' if right else 'right')
+    if _scal(x):
+        return one(x)
+    return ndarray([one(v) for v in _flat(x)])
+
+
 def f_clip(a, lo, hi):
     return _elementwise(a, lambda x: _min2(_max2(x, lo), hi))
 
@@ -1037,17 +1056,61 @@ def f_empty(n, dtype=None):
     return f_zeros(n)
 
 
+class StrDType:
+    """numpy's fixed-width unicode dtype '<U{width}': casting to it truncates silently."""
+    kind = 'U'
+
+    def __init__(self, width): self.width = width
+    def __repr__(self): return "dtype('<U%d')" % self.width
+    def __eq__(self, o): return isinstance(o, StrDType) and o.width == self.width
+    def __hash__(self): return hash(('U', self.width))
+
+
+def _str_dtype(v):
+    """dtype numpy gives a sequence of plain concrete strings, or None if it is not such a sequence."""
+    if v and builtins.all(type(x) is str and core._TOK_L not in x for x in v):
+        return StrDType(builtins.max(1, builtins.max(len(x) for x in v)))
+    return None
+
+
 def f_atleast_1d(a):
-    v = _flat(a)
+    v = [a] if isinstance(a, str) else _flat(a)
     if builtins.any(isinstance(x, str) for x in v):
-        # fixed-width numpy string arrays (truncation on assignment / casting) are not modelled
-        raise ShimGap('numpy.atleast_1d on strings (fixed-width string dtype)')
+        dt = _str_dtype(v)
+        if dt is None:
+            raise ShimGap('numpy.atleast_1d on a mix of strings and other values / on symbolic text')
+        return ndarray(v, None, dt)
     return ndarray(v)
 
 
 def f_isfinite(a):
     return _elementwise(a, lambda x: _not(_isnan(x)) if isinstance(x, (SymFloat, SymFP)) and not isinstance(x, core._Inf)
                         else (isinstance(x, (int, float)) and x == x and x not in (inf, -inf)))
+
+
+class RandomState:
+    """numpy.random.RandomState(seed): a private generator = (seed, number of consumers served so far). The mixture stub
+    records the pair each fit sees and advances the counter (scikit-learn's check_random_state hands the very object on, so
+    every fit draws from it). Drawing from it directly is not modelled."""
+    _is_model_rs = True
+
+    def __init__(self, seed=None):
+        if seed is None:
+            RANDOM.consume('RandomState(None)')      # seeded from the OS: not reproducible
+        self.seed_value = seed
+        self.n_used = 0
+
+    def take(self):
+        k = (self.seed_value, self.n_used)
+        self.n_used += 1
+        return k
+
+    def __repr__(self): return 'RandomState(%r)@%d' % (self.seed_value, self.n_used)
+
+    def __getattr__(self, n):
+        if n.startswith('__'):
+            raise AttributeError(n)
+        raise ShimGap('numpy.random.RandomState.' + n)
 
 
 class _Random:
@@ -1081,6 +1144,8 @@ class _Random:
     def consume(self, what):
         self.log.append(what)
         self.state = ('MT19937', ('advanced', self.state[1], what), self.state[2], ('gauss-after', what), ('cached-after', what))
+
+    RandomState = RandomState
 
     def __getattr__(self, n):
         if n.startswith('__'):
